@@ -68,11 +68,12 @@ def divisor_obligations(chk, tag, timeout_ms=10000):
                    detail="each distinct divisor met on the symbolic path is entailed != 0 by the assumptions")
 
 
-def run_shape(chk, ns, nq, np_, nv, n_sym_T, acoustic_zero=True):
-    tag = "nq%d-np%d-nv%d-nT%d%s" % (nq, np_, nv, n_sym_T + 1, "" if acoustic_zero else "-acjunk")
+def run_shape(chk, ns, nq, np_, nv, n_sym_T, acoustic_zero=True, tgrid="T0-first"):
+    tag = "nq%d-np%d-nv%d-nT%d%s%s" % (nq, np_, nv, n_sym_T + 1, "" if acoustic_zero else "-acjunk", "" if tgrid == "T0-first" else "-" + tgrid)
     ctx = new_context()
     H, K, consts = PC.declare_constants(ctx)
-    d = PC.make_duck(ctx, nq, np_, nv, n_sym_T=n_sym_T, gamma_acoustic_zero=acoustic_zero)
+    d = PC.make_duck(ctx, nq, np_, nv, n_sym_T=n_sym_T + (1 if tgrid == "no-T0" else 0), gamma_acoustic_zero=acoustic_zero,
+                     with_T0=(tgrid != "no-T0"), t0_last=(tgrid == "T0-last"))
     ei = symvars("ei", (nv,), positive=True, lo=0, hi=1)
     ej = symvars("ej", (nv,), positive=True, lo=0, hi=1)
 
@@ -191,7 +192,8 @@ def run_shape(chk, ns, nq, np_, nv, n_sym_T, acoustic_zero=True):
     divisor_obligations(chk, tag)
 
     # ---- vacuity witnesses ----------------------------------------------------------------
-    w = Z.witness([("!=", expected["long_th"][nt - 1, 0]), ("!=", expected["off_zp"][0])],
+    it_w = max(i for i in range(nt) if not Sym.of(d.t_array[i]).is_zero())
+    w = Z.witness([("!=", expected["long_th"][it_w, 0]), ("!=", expected["off_zp"][0])],
                       name=tag + ":witness", timeout_ms=20000, rng=rng)
     chk.witness(tag + ":assumptions-satisfiable-and-oracle-nonzero", w[0])
     chk.sample(dict(shape=tag, obligation="long_zp[0] == A_zp/(5 e^2) + P_zp/(3 e)",
@@ -250,6 +252,9 @@ def main():
                   (4, 12, 3, 2, True), (2, 6, 2, 1, False), (8, 3, 2, 1, True)]
     for nq, np_, nv, nT, acz in shapes:
         run_shape(chk, ns, nq, np_, nv, nT, acoustic_zero=acz)
+    # temperature grids that do not start at T=0 / where the T=0 row is not the first (masking is by value, not position)
+    run_shape(chk, ns, 2, 3, 2, 1, tgrid="no-T0")
+    run_shape(chk, ns, 2, 3, 2, 1, tgrid="T0-last")
     constants_side_check(chk, ns)
     chk.bound(shapes=[dict(nq=a, np=b, nv=c, nT=dd + 1, acoustic_slots_zero=e) for a, b, c, dd, e in shapes],
               solver_timeout_ms=30000, paths_per_run=1)
